@@ -428,12 +428,12 @@ theorem plan_g711_expand (h : Header) (s : Spec) (count : Nat) (hm : Matches h s
   cases hcd : s.coding with
   | pcm => exact absurd hcd hc
   | ulaw =>
-    simp [mkPlan, Spec.nbytes, Spec.codingText, hcd, IN_TYPES, DT.ofKind, ALAW, ULAW, DT.itemsize, DT.cast,
+    simp [mkPlan, Spec.nbytes, Spec.codingText, hcd, IN_TYPES, DT.ofKind, ALAW, ULAW, DT.itemsize,
       G711_DEFAULT_DTYPE]
     rw [if_neg (by omega)]
     exact ⟨_, rfl, rfl, rfl, rfl, rfl, rfl, fun _ => rfl, rfl⟩
   | alaw =>
-    simp [mkPlan, Spec.nbytes, Spec.codingText, hcd, IN_TYPES, DT.ofKind, ALAW, ULAW, DT.itemsize, DT.cast,
+    simp [mkPlan, Spec.nbytes, Spec.codingText, hcd, IN_TYPES, DT.ofKind, ALAW, ULAW, DT.itemsize,
       G711_DEFAULT_DTYPE]
     rw [if_neg (by omega)]
     exact ⟨_, rfl, rfl, rfl, rfl, rfl, rfl, fun _ => rfl, rfl⟩
@@ -539,5 +539,44 @@ theorem frames_present_core (R : Nat) (hR : 0 < R) (dtype : Option DT) (file : B
     hm
   rw [hdel] at this
   exact this
+
+/-! ## per-read conversion is pure on real bytes -/
+
+theorem hitem_cast (p : Plan) (g : Int → Int) (h : ∀ x, p.item x = .ok (g x)) :
+    ∀ (c : Nat) (bs : Bytes), (∀ b ∈ bs, b < 256) →
+      mapE p.item (unpack p.itemBytes p.dec c bs) = .ok ((unpack p.itemBytes p.dec c bs).map g) :=
+  fun _ _ _ => mapE_eq_map _ _ _ (fun x _ => h x)
+
+theorem hitem_table (p : Plan) (table : List Int) (be : Bool) (hlen : table.length = 256)
+    (hk : p.itemBytes = 1) (hdec : p.dec = decItem 1 false be)
+    (h : ∀ x, p.item x = (lookup table x).map (wrapS 16)) :
+    ∀ (c : Nat) (bs : Bytes), (∀ b ∈ bs, b < 256) →
+      mapE p.item (unpack p.itemBytes p.dec c bs)
+        = .ok ((unpack p.itemBytes p.dec c bs).map (fun x => wrapS 16 (tableFn table x))) := by
+  intro c bs hb
+  apply mapE_eq_map
+  intro x hx
+  rw [hk, hdec] at hx
+  have := unpack_u8_range be c bs hb x hx
+  rw [h x, lookup_ok table x this.1 (by rw [hlen]; exact this.2)]
+  rfl
+
+theorem map_wrapS16_id (xs : List Int) (h : ∀ x ∈ xs, -32768 ≤ x ∧ x < 32768) : xs.map (wrapS 16) = xs := by
+  induction xs with
+  | nil => rfl
+  | cons x t ih =>
+    have hx := h x List.mem_cons_self
+    simp only [List.map_cons, ih (fun y hy => h y (List.mem_cons_of_mem _ hy))]
+    congr 1
+    simp only [wrapS]; omega
+
+theorem map_wrapU8_id (xs : List Int) (h : ∀ x ∈ xs, 0 ≤ x ∧ x < 256) : xs.map (wrapU 8) = xs := by
+  induction xs with
+  | nil => rfl
+  | cons x t ih =>
+    have hx := h x List.mem_cons_self
+    simp only [List.map_cons, ih (fun y hy => h y (List.mem_cons_of_mem _ hy))]
+    congr 1
+    simp only [wrapU]; omega
 
 end PdsVerif.Model.Sphere
